@@ -250,8 +250,9 @@ Definition h_emit (s : hst) (x : Z) : hst :=
   | None => mkH (h_nodes s ++ [x]) None (h_saved s)
   end.
 
-(* [adjust] = false: the code as it is.  true: a repaired hygienize that moves the caller's position
-   past the statements the callee inserted at or before it. *)
+(* the index bookkeeping used before 6cc3727 ([adjust] = false), and a simpler repair that was tried and
+   found insufficient ([adjust] = true: hygienize moves the caller's position
+   past the statements the callee inserted at or before it). *)
 Fixpoint h_run (adjust : bool) (s : hst) (a : hact) {struct a} : hst :=
   match a with
   | HEmit x => h_emit s x
